@@ -1201,6 +1201,8 @@ def g_paths(rng, big):
     F, s, t = _netflux(rng, 6)
     out.append(('all-paths', [[s], [t], N(F)], {}))
     out.append(('ties', [[0], [3], N(np.array([[0, 1., 1., 0], [0, 0, 0, 1.], [0, 0, 0, 1.], [0, 0, 0, 0]]))], {}))
+    F4 = np.array([[0, .5, .2, .1], [0, 0, .1, .4], [0, 0, 0, .3], [0, 0, 0, 0]])
+    out.append(('unsorted-multi-ends', [[1, 0], [3, 2], N(F4)], {'num_paths': 3}))
     F, s_, t_ = _netflux(rng, 7)
     out.append(('flux-cutoff-half', [[s_], [t_], N(F)], {'flux_cutoff': 0.5}))
     out.append(('callable-remover', [[s_], [t_], N(F)],
@@ -1215,6 +1217,8 @@ def g_top_path(rng, big):
         F, s, t = _netflux(rng, n)
         out.append(('dag-%d' % n, [[s], [t], N(F)], {}))
     out.append(('unreachable', [[0], [2], N(np.array([[0, 1., 0], [0, 0, 0], [0, 0, 0]]))], {}))
+    F4 = np.array([[0, .5, .2, .1], [0, 0, .1, .4], [0, 0, 0, .3], [0, 0, 0, 0]])
+    out.append(('unsorted-multi-ends', [[1, 0], [3, 2], N(F4)], {}))
     out.append(('two-sinks', [0, [2, 3], N(np.array([[0, .5, .2, 0], [0, 0, .1, .4], [0, 0, 0, 0], [0, 0, 0, 0]]))], {}))
     return out
 
@@ -1939,6 +1943,9 @@ def _outcome(routine, out):
 def _enc_paths(e, path=()):
     """paths of every array-like encoding inside an argument structure"""
     if isinstance(e, list):
+        if e and path and len(path) >= 2 and all(isinstance(x, int) and not isinstance(x, bool) for x in e):
+            yield path                                   # a plain list of indices / sizes
+            return
         for i, x in enumerate(e):
             yield from _enc_paths(x, path + (i,))
     elif isinstance(e, dict):
@@ -1968,6 +1975,9 @@ def _set(e, path, v):
 
 def _presentations(enc, routine):
     """other ways of handing over the same values"""
+    if isinstance(enc, list):                            # plain Python list of ints (indices, lengths, ...)
+        return [('list-as-int64-array', N(enc, 'int64')), ('list-as-int32-array', N(enc, 'int32')),
+                ('list-as-tuple', TUP(*enc))]
     t = enc['t']
     outs = []
     if t == 'nd' and 'as' not in enc:
@@ -2012,21 +2022,39 @@ def _presentations(enc, routine):
     return outs
 
 
-def argument_variants(rng, routine, args, kwargs, k):
-    """up to k variants of one argument set, each changing the presentation of ONE argument
-    (main or secondary, nested ones included), plus one variant with all arguments given by name"""
+_DTYPE_VARIANTS = ('int32', 'int16', 'int8', 'uint8', 'uint16', 'int64', 'int-as-float64', 'float32',
+                   'integral-float-as-int64', 'ra-int32', 'ra-float64', 'ra-int8')
+
+
+def argument_variants(rng, routine, args, kwargs, k, dtype_only=False):
+    """variants of one argument set, each changing the presentation of ONE argument (main or secondary,
+    nested ones included): for every array argument one dtype change and one container / layout change
+    (at most k arguments), plus one variant with all arguments given by name.
+    dtype_only: a single dtype change of one randomly chosen array argument."""
     both = {'a': args, 'k': kwargs}
     paths = list(_enc_paths(both))
     out = []
-    cands = []
-    for pth in paths:
-        for name, enc2 in _presentations(_get(both, pth), routine):
-            cands.append((pth, name, enc2))
-    for idx in rng.permutation(len(cands))[:k]:
-        pth, name, enc2 = cands[int(idx)]
+    chosen = []
+    for pi in rng.permutation(len(paths))[:(1 if dtype_only else k)]:
+        pth = paths[int(pi)]
+        pres = _presentations(_get(both, pth), routine)
+        dts = [c for c in pres if c[0] in _DTYPE_VARIANTS or c[0].startswith('list-as-int')]
+        lays = [c for c in pres if c[0] not in _DTYPE_VARIANTS]
+        if dts:
+            # the other numeric KIND always (int <-> float: no-copy conversions and truncations live there) ...
+            kind_flip = [c for c in dts if c[0] in ('int-as-float64', 'integral-float-as-int64', 'ra-float64')]
+            rest = [c for c in dts if c not in kind_flip]
+            chosen += [(pth,) + c for c in kind_flip[:1]]
+            if rest:                                   # ... and one other width
+                chosen.append((pth,) + rest[int(rng.integers(0, len(rest)))])
+        if lays and not dtype_only:
+            chosen.append((pth,) + lays[int(rng.integers(0, len(lays)))])
+    for pth, name, enc2 in chosen:
         b2 = _set(both, pth, enc2)
         where = ('arg%s' % '.'.join(map(str, pth[1:]))) if pth[0] == 'a' else '.'.join(map(str, pth[1:]))
         out.append(('%s:%s' % (where, name), b2['a'], b2['k']))
+    if dtype_only:
+        return out
     try:
         import inspect
         sig = inspect.signature(resolve(routine))
@@ -2446,12 +2474,12 @@ def run(ctx):
     if bad:
         ctx.note('rejected_source_sites', bad)
     reps = 6 if not ctx.thorough else 32
-    rounds = ctx.n(1, 6)
+    rounds = ctx.n(1, 5)
     jobs = []
     order = [r for r in sorted(ROUTINES) if r not in WORKERS]
     wplan = worker_jobs(rng, ctx.thorough)
-    nvar = ctx.n(2, 5)
-    nhist = ctx.n(4, 100)
+    nvar = ctx.n(2, 4)
+    nhist = ctx.n(6, 8)
     for rd in range(rounds):
         for routine in order:
             sets = GENS[routine](rng, ctx.thorough and rd % 2 == 1)
@@ -2460,7 +2488,16 @@ def run(ctx):
                 if len(jobs) < 4000 and len(json.dumps(args)) < 200000:
                     jobs.append({'routine': routine, 'label': label, 'args': args, 'kwargs': kwargs, '_base': b})
             # class 2 / 6: every argument in another dtype / container / layout, and all arguments by name
-            picks = [sets[int(i)] for i in rng.permutation(len(sets))[:ctx.n(2, 8)]]
+            picks = [sets[int(i)] for i in rng.permutation(len(sets))[:ctx.n(3, 4)]]
+            # every argument set (so every keyword corner) once more with ONE array argument in another dtype
+            for label, args, kwargs in sets:
+                if routine in WORKERS or len(json.dumps(args)) > 200000 or (label, args, kwargs) in picks:
+                    continue
+                for vname, a2, k2 in argument_variants(rng, routine, args, kwargs, 1, dtype_only=True):
+                    check_argset(ctx, routine, 'variant:%s:%s' % (label, vname), a2, k2, reps=reps,
+                                 perturbations=[{'kind': 'repeat'}] +
+                                 ([{'kind': 'alloc', 'fill': 'nan'}] if poison_allocator() else []))
+                    ctx.tag('variant=' + vname.split(':')[-1])
             for label, args, kwargs in picks:
                 if len(json.dumps(args)) > 200000:
                     continue
@@ -2559,6 +2596,9 @@ def replay(ctx, case):
     routine, args, kwargs = case['routine'], case['args'], case.get('kwargs', {})
     p = case.get('perturbation', {})
     if p.get('kind') == 'malloc_perturb':
+        # the recorded difference may need a call history (state surviving between calls): give this process
+        # one - the same routine on other values of the same shapes - before computing the reference
+        call_once(routine, _same_shape_other_values(args), _same_shape_other_values(kwargs))
         base = call_once(routine, args, kwargs)[0]
         o = run_subprocess([{'routine': routine, 'args': args, 'kwargs': kwargs}], p['value'])[0]
         same = (base.get('error') == o.get('error')) if ('error' in base or 'error' in o) \
